@@ -80,6 +80,47 @@ def check_a(case):
     return out
 
 
+# (a2) several requests on one proxy / one keep-alive connection: framing must not depend on the previous exchange
+
+
+def cases_a2(tier):
+    n = len(PAYLOADS)
+    L = 3
+    for seq in itertools.product(range(n), repeat=L):
+        if tier == "quick" and (seq[0] + 2 * seq[1] + 3 * seq[2]) % 5:
+            continue
+        for scheme in ("tcp", "unix"):
+            yield (seq, scheme)
+
+
+def check_a2(case):
+    seq, scheme = case
+    out = Out(cls="request-sequence")
+    peer = env.ScriptPeer()
+    url = "http://h.test/rpc" if scheme == "tcp" else "unix+http://./s.sock"
+    with env.client_net(peer):
+        proxy = jsonrpclib.ServerProxy(url)
+        for step, p in enumerate(seq):
+            try:
+                r = proxy.echo(PAYLOADS[p])
+            except Exception as ex:
+                return out.bad("C17/client-request-raises-%s" % type(ex).__name__, "%r step %d raised %r" % (case, step, ex))
+            if r != PAYLOADS[p]:
+                return out.bad("C17/request-sequence/body-or-framing-depends-on-previous-request", "%r step %d: echoed %r" % (case, step, r[:40] if isinstance(r, str) else r))
+    if len(peer.requests) != len(seq):
+        return out.bad("C17/request-count", "%r: %d requests on the wire" % (case, len(peer.requests)))
+    for step, req in enumerate(peer.requests):
+        cl = req.header_values("content-length")
+        if len(cl) != 1 or cl[0] != str(len(req.body)):
+            out.bad("C17/request-content-length-wrong", "%r step %d: Content-Length lines %r, body of %d bytes" % (case, step, cl, len(req.body)))
+        try:
+            if json.loads(req.body.decode("utf-8"))["params"] != [PAYLOADS[seq[step]]]:
+                out.bad("C17/request-sequence/body-or-framing-depends-on-previous-request", "%r step %d: body carries other params" % (case, step))
+        except Exception as ex:
+            out.bad("C17/request-content-length-wrong", "%r step %d: body is not the JSON text sent (%r)" % (case, step, ex))
+    return out
+
+
 # ---------------------------------------------------------------------------
 # (b) request target and scheme handling
 
@@ -462,6 +503,7 @@ def leg(name, casegen, fn):
 
 LEGS = {
     "request-framing": leg("request-framing", cases_a, check_a),
+    "request-sequence": leg("request-sequence", cases_a2, check_a2),
     "request-target": leg("request-target", cases_b, check_b),
     "parser-compositions": leg("parser-compositions", cases_c, check_c),
     "response-chunking": leg("response-chunking", cases_d, check_d),
@@ -474,6 +516,7 @@ META = {
     "technique": "bounded-exhaustive enumeration of bodies, chunkings (all compositions of short bodies, <=2 cuts around read-size boundaries of long ones), "
     "URLs and schemes; bytes observed by a scripted raw peer behind the real HTTPConnection and by driving the real do_POST / CGI handler over in-memory streams",
     "rule": "request-framing: 10 payloads (sizes around 1024, 2-/3-/4-byte characters) x 3 content types x {call, kwargs, notify, batch} x {TCP, Unix}; "
+    "request-sequence: sequences of 3 calls over the 10 payloads on one proxy/connection (quick: a fifth of the 1000); "
     "request-target: 4 schemes x 3 authorities x 15 paths x 12 queries through a recording transport, http and unix+http through the in-memory network, 13 "
     "unsupported schemes; parser-compositions: all 2^(n-1) compositions of 12 bodies of <=14 bytes; response-chunking: body sizes {1022..1026, 2047..2049, "
     "4099} x a 2-/3-/4-byte character starting at every offset that makes it touch a multiple of 1024 x identity/gzip x Content-Length/close-delimited x 4 "
@@ -491,6 +534,6 @@ META = {
 
 def replay(case):
     c = eval(case["case"], {"__builtins__": {}}, {})
-    fn = {"request-framing": check_a, "request-target": check_b, "parser-compositions": check_c, "response-chunking": check_d,
+    fn = {"request-framing": check_a, "request-sequence": check_a2, "request-target": check_b, "parser-compositions": check_c, "response-chunking": check_d,
           "server-read": check_e, "reply-framing": check_f}[case["leg"]]
     return fn(c).viols
